@@ -90,6 +90,9 @@ func New(c *gen.Chain, dbBase string) (*Runner, error) {
 
 // createLegacyAddresses creates the balance table as a build that predates the v4 ("pre-v4": 30 assets) or the v5 ("pre-v5": 42
 // assets) asset lists would have created it, so that the daemon's own migrations bring it up to date at start-up.
+// CreateLegacyAddresses is exported for the other harness commands.
+func CreateLegacyAddresses(file, era string) error { return createLegacyAddresses(file, era) }
+
 func createLegacyAddresses(file, era string) error {
 	n := map[string]int{"pre-v4": 30, "pre-v5": 42}[era]
 	if n == 0 {
